@@ -43,9 +43,9 @@ func Tau2(bb sdf.Box2) float64 {
 
 // Result summarises one probing run.
 type Result struct {
-	BoxProblem string // "" or "box-not-finite" / "box-not-ordered"
-	Interior   int    // sampled interior points (non-empty solid when > 0)
-	Probes     int    // points evaluated outside the box
+	BoxProblem string   // "" or "box-not-finite" / "box-not-ordered"
+	Interior   int      // sampled interior points (non-empty solid when > 0)
+	Probes     int      // points evaluated outside the box
 	Interior3  []v3.Vec // the interior samples (3D run)
 	Interior2  []v2.Vec // the interior samples (2D run)
 }
